@@ -136,7 +136,7 @@ def run_ledger(C, P, rule, entry_ids, label):
         d = PN.auto_discharge(s)
         if not d:
             import re as _re
-            m = _re.match(r'^regex::(validate_regex_\d+)(::\{closure#\d+\})*$', s.b.short)
+            m = _re.match(r'^regex::(validate_regex_\d+)(::\{[^{}]*\})*$', s.b.short)
             if m:
                 if total is None:
                     import c19
